@@ -59,3 +59,26 @@ pub const CMD_COUNT_CALLS: i64 = 11; // returns number of matching fs calls sinc
 pub const CMD_FAULT_FIRED: i64 = 12; // a = slot -> 1 if fired
 pub const CMD_CLOCK_NOW_NS: i64 = 13;
 pub const CMD_CLOCK_TICK_NS: i64 = 14; // a = per-call auto advance
+
+pub fn clear_root() {
+    let Some(p) = sym("kvshim_set_root") else { return };
+    let f: extern "C" fn(*const libc::c_char) -> i64 = unsafe { std::mem::transmute(p) };
+    f(std::ptr::null());
+}
+
+/// Arm fault slot: fail (errno) or shorten (short_len >= 0) the nth call matching `classes`.
+pub fn fault_arm(slot: i64, classes: i64, nth: i64, err: i64, short_len: i64) -> bool {
+    let Some(p) = sym("kvshim_fault_arm") else { return false };
+    let f: extern "C" fn(i64, i64, i64, i64, i64) -> i64 = unsafe { std::mem::transmute(p) };
+    f(slot, classes, nth, err, short_len) == 0
+}
+
+pub const C_WRITE: i64 = 1;
+pub const C_FSYNC: i64 = 2;
+pub const C_FDATASYNC: i64 = 4;
+pub const C_FTRUNCATE: i64 = 8;
+pub const C_RENAME: i64 = 16;
+pub const C_OPEN: i64 = 32;
+pub const C_UNLINK: i64 = 64;
+pub const C_MKDIR: i64 = 128;
+pub const C_FSYNC_DIR: i64 = 256;
